@@ -321,8 +321,11 @@ func c01Cuts(rng *rand.Rand, variant string, b []byte, bounds []int) []int {
 
 func checkC01(r *verdict.Run) {
 	r.Rule = "sequences of well-formed commands (+ sentinel ECHO) are sent to a fresh emulator once command-by-command (reference) and again with the same bytes cut differently (pipeline, every byte, inside CRLF, inside length headers, around 8192, in writes of exactly 8192 bytes, random, mid-command; every other sequence is padded to a whole number of 8192-byte blocks); " +
-		"oracle: exactly one strictly parsed reply per command, same bytes as the reference (canonical tree for HGETALL/SMEMBERS), nothing after the sentinel; commands pipelined in several segments behind a blocking command (BLPOP/BRPOP/BLMOVE/BLMPOP, ended by a push or a timeout) must be answered like the command-by-command run; six connections reading their own 8 MiB values at the same time (one of them slowly) must each receive exactly their bytes; hostile byte strings must round-trip in every role; error replies must stay on one line. " +
+		"oracle: exactly one strictly parsed reply per command, same bytes as the reference (canonical tree for HGETALL/SMEMBERS), nothing after the sentinel; commands pipelined in several segments behind a blocking command (BLPOP/BRPOP/BLMOVE/BLMPOP, ended by a push or a timeout) must be answered like the command-by-command run; six connections reading their own 8 MiB values at the same time (one of them slowly) must each receive exactly their bytes; segments seconds apart, and connections still in use seconds after a command arrived in pieces, are served like a connection that only ever sent whole commands; hostile byte strings must round-trip in every role; error replies must stay on one line. " +
 		"distinct = (variant, protocol, command, reply class) + (role, string class)"
+	slowDone := make(chan struct{})
+	go func() { defer close(slowDone); c01Slow(r, time.Duration(tierPick(r, 6500, 40000))*time.Millisecond) }()
+	defer func() { <-slowDone }()
 	nseq := tierPick(r, 24, 400)
 	maxLen := tierPick(r, 12, 40)
 	variants := []string{"pipeline", "byte", "crlf", "header", "8k", "blocks", "random", "midcmd"}
@@ -876,4 +879,141 @@ func c01Cross(r *verdict.Run, runs int) {
 		}
 		r.Distinct(fmt.Sprintf("cross/%dMiB", size>>20))
 	})
+}
+
+// c01Slow: time as a dimension of segmentation. Whatever the pause between two segments of a command, and however long
+// a connection goes on (idle or busy) after a command that arrived in pieces, it is served like a connection that only
+// ever sent whole commands. The pauses are long (seconds) because what could break this is a timer.
+func c01Slow(r *verdict.Run, pause time.Duration) {
+	c, err := startChild(false)
+	if err != nil {
+		r.Inconclusive("cannot start child")
+		return
+	}
+	defer c.Stop()
+	e, err := startEmu(c, "")
+	if err != nil {
+		r.Inconclusive("infra: " + err.Error())
+		return
+	}
+	type plan struct {
+		name string
+		run  func(cn *wire.Conn, key string) error
+	}
+	whole := func(cn *wire.Conn, args ...string) error { return cn.Send(resp.Cmd(args...)) }
+	split := func(cn *wire.Conn, gap time.Duration, args ...string) error {
+		b := resp.Cmd(args...)
+		cut := len(b) / 2
+		if err := cn.Send(b[:cut]); err != nil {
+			return err
+		}
+		time.Sleep(gap)
+		return cn.Send(b[cut:])
+	}
+	expect := func(cn *wire.Conn, want string) error {
+		v, _, err := cn.ReadValue(10 * time.Second)
+		if err != nil {
+			return fmt.Errorf("no reply (expected %q): %v", want, err)
+		}
+		got := v.Text()
+		if v.Kind == ':' {
+			got = strconv.FormatInt(v.Int, 10)
+		}
+		if got != want {
+			return fmt.Errorf("reply %s, expected %q", v, want)
+		}
+		return nil
+	}
+	plans := []plan{
+		{"control-whole-commands-then-idle", func(cn *wire.Conn, key string) error {
+			if err := whole(cn, "SET", key, "v1"); err != nil {
+				return err
+			}
+			if err := expect(cn, "OK"); err != nil {
+				return err
+			}
+			time.Sleep(pause)
+			whole(cn, "GET", key)
+			return expect(cn, "v1")
+		}},
+		{"long-pause-between-the-segments-of-a-command", func(cn *wire.Conn, key string) error {
+			if err := split(cn, pause, "SET", key, "v1"); err != nil {
+				return err
+			}
+			if err := expect(cn, "OK"); err != nil {
+				return err
+			}
+			whole(cn, "GET", key)
+			return expect(cn, "v1")
+		}},
+		{"idle-after-a-command-that-arrived-in-pieces", func(cn *wire.Conn, key string) error {
+			if err := split(cn, 30*time.Millisecond, "SET", key, "v1"); err != nil {
+				return err
+			}
+			if err := expect(cn, "OK"); err != nil {
+				return err
+			}
+			time.Sleep(pause)
+			if err := whole(cn, "GET", key); err != nil {
+				return err
+			}
+			if err := expect(cn, "v1"); err != nil {
+				return err
+			}
+			whole(cn, "APPEND", key, "+")
+			return expect(cn, "3")
+		}},
+		{"steady-use-after-a-command-that-arrived-in-pieces", func(cn *wire.Conn, key string) error {
+			if err := split(cn, 30*time.Millisecond, "SET", key, "0"); err != nil {
+				return err
+			}
+			if err := expect(cn, "OK"); err != nil {
+				return err
+			}
+			n := 0
+			for t0 := time.Now(); time.Since(t0) < pause+500*time.Millisecond; {
+				n++
+				if err := whole(cn, "INCR", key); err != nil {
+					return fmt.Errorf("INCR %d: %v", n, err)
+				}
+				if err := expect(cn, strconv.Itoa(n)); err != nil {
+					return fmt.Errorf("INCR %d after %v: %v", n, time.Since(t0).Round(time.Millisecond), err)
+				}
+				time.Sleep(250 * time.Millisecond)
+			}
+			return nil
+		}},
+		{"large-value-in-several-reads-then-idle", func(cn *wire.Conn, key string) error {
+			big := strings.Repeat("x", 40000)
+			if err := whole(cn, "SET", key, big); err != nil {
+				return err
+			}
+			if err := expect(cn, "OK"); err != nil {
+				return err
+			}
+			time.Sleep(pause)
+			whole(cn, "STRLEN", key)
+			return expect(cn, "40000")
+		}},
+	}
+	var wg sync.WaitGroup
+	for i, p := range plans {
+		wg.Add(1)
+		go func(i int, p plan) {
+			defer wg.Done()
+			cn, err := e.dial()
+			if err != nil {
+				r.Inconclusive("infra: " + err.Error())
+				return
+			}
+			defer cn.Close()
+			r.Eval(1)
+			if err := p.run(cn, fmt.Sprintf("slow-%d", i)); err != nil {
+				r.Report("c01/slow/"+p.name, fmt.Sprintf("%s (pause %v): %v; a connection that only sent whole commands is served normally", p.name, pause, err), map[string]any{"plan": p.name, "pause_ms": pause.Milliseconds()})
+				return
+			}
+			r.Distinct("slow/" + p.name)
+		}(i, p)
+	}
+	wg.Wait()
 }
